@@ -45,6 +45,9 @@ ASSUMPTIONS = [
     'NIST-modified UNIFAC: the bundled chemicals carry no NIST group assignments, the harness assigns them by name on private copies '
     '(same subgroup ids as the Dortmund assignment)',
     'Gibbs-Duhem is checked in directions e_i - e_j between components with x >= 1/8 (both perturbed points stay inside the simplex)',
+    'the class-level interning caches (GroupActivityCoefficients._cached per model class) are owned by the harness: emptied before every execution, so the base list and all of its '
+    'permutations are requested within ONE execution; twins are built inside a save/clear/restore bracket; c16.history requests the reversed lists lazily through the class so that '
+    'the cache content is explored state',
     'permutation invariance is a differential check (library against itself on the re-ordered list); absolute agreement with '
     'published UNIFAC values is not part of the property and not claimed',
 ]
@@ -129,6 +132,18 @@ def clear_interned():
     for c in (ac.UNIFACActivityCoefficients, ac.DortmundActivityCoefficients, ac.NISTActivityCoefficients):
         c._cached.clear()
 
+class isolated:
+    """run a block with EMPTY interning caches and put the explored caches back afterwards (fresh twins must neither see nor
+    disturb the state under exploration, whatever the library uses as cache key)"""
+    def __enter__(self):
+        ac = _load()
+        self.saved = [(c._cached, dict(c._cached)) for c in (ac.UNIFACActivityCoefficients, ac.DortmundActivityCoefficients, ac.NISTActivityCoefficients)]
+        for c, _ in self.saved: c.clear()
+    def __exit__(self, *exc):
+        for c, d in self.saved:
+            c.clear(); c.update(d)
+        return False
+
 # ---- composition grids ---------------------------------------------------------------------------
 
 def simplex(n, den):
@@ -195,7 +210,7 @@ class Grid(System):
         self.perm_block = perm_block
 
     def warm(self): _load()
-    def reset_globals(self): pass     # the interned model objects are library behaviour and stay interned here
+    def reset_globals(self): clear_interned()     # the class-level interning caches are process-global state: emptied per execution
     def depth(self, tier): return 1
 
     def configs(self, tier, seed):
@@ -493,7 +508,9 @@ class Ideal(System):
 
 class History(System):
     """Two interned objects (A: 2-3 chemicals, B: 3-4 chemicals, overlapping) of one model class, freshly
-    constructed per execution; every call is compared with a freshly constructed twin."""
+    constructed per execution, plus the REVERSED lists of both, which are requested from the class (i.e. through its interning
+    cache) only when an action uses them; every call is compared with a twin constructed with empty caches.  The cache
+    content is part of the state."""
     name = 'c16.history'
     nontrivial_per_config = True
 
@@ -512,7 +529,7 @@ class History(System):
         model, a, b = config
         st = type('St', (), {})()
         st.model = model
-        st.ids = (a, b)
+        st.ids = (a, b, tuple(reversed(a)), tuple(reversed(b)))
         st.objs = (_gamma(model, a), _gamma(model, b))
         st.const0 = tuple(self._const(o) for o in st.objs)
         st.info = None
@@ -524,10 +541,12 @@ class History(System):
 
     def canon(self, st):
         out = []
-        for o in st.objs:
+        cached = list(_cls(st.model)._cached.values())
+        for o in list(st.objs) + [o for o in cached if not any(o is p for p in st.objs)]:
             gp = getattr(o, '_group_psis', None)
-            out.append((type(o).__name__, None if gp is None else tuple(fx.r12(v) for v in np.asarray(gp, float).ravel()), self._const(o)))
-        return (st.model, st.ids, tuple(out))
+            out.append((type(o).__name__, tuple(c.ID for c in getattr(o, '_chemicals', ())),
+                        None if gp is None else tuple(fx.r12(v) for v in np.asarray(gp, float).ravel()), self._const(o)))
+        return (st.model, st.ids, tuple(out[:2]) + tuple(sorted(out[2:], key=repr)))
 
     def invariants(self, st):
         out = []
@@ -547,6 +566,11 @@ class History(System):
                 for xi in range(len(self.XS[n])):
                     for T in (250.0, 450.0, 300.0):
                         acts.append((via, k, xi, T))
+        for k in (2, 3):        # the reversed lists, requested through the class at call time
+            n = len(st.ids[k])
+            for via in ('call', 'f'):
+                for xi in range(len(self.XS[n])):
+                    acts.append((via, k, xi, 300.0))
         return acts
 
     def _eval(self, obj, via, x, T, model):
@@ -560,24 +584,27 @@ class History(System):
 
     def step(self, st, a):
         via, k, xi, T = a
-        ids = st.ids[k]; obj = st.objs[k]; model = st.model
+        ids = st.ids[k]; model = st.model
         x = self.XS[len(ids)][xi]
-        if via == 'ac' and (not hasattr(obj, 'activity_coefficients') or min(x) <= 0 and False):
+        if k >= 2:
+            x = tuple(reversed(self.XS[len(ids)][xi]))       # the base composition in the reversed order
+            try:
+                obj = _gamma(model, ids)
+            except Exception as e:
+                raise _unexpected(e, model, 'construct')
+        else:
+            obj = st.objs[k]
+        if via == 'ac' and not hasattr(obj, 'activity_coefficients'):
             raise Rejected('no activity_coefficients method (ideal fallback)')
         g = self._eval(obj, via, x, T, model)
-        # freshly constructed twin (the interned entry is put back afterwards)
-        cls = _cls(model); chems = _chemicals(model, ids)
-        saved = cls._cached.pop(chems, None)
-        try:
-            twin = cls(chems)
+        # twin constructed with empty caches (the explored caches are put back afterwards)
+        with isolated():
+            twin = _gamma(model, ids)
             ref = self._eval(twin, via, x, T, model)
-        finally:
-            cls._cached.pop(chems, None)
-            if saved is not None: cls._cached[chems] = saved
         st.info = g
         if g.shape != ref.shape or not np.allclose(g, ref, rtol=1e-12, atol=0, equal_nan=True):
-            raise Violation('history-dependent', f'{model}{ids} via {via} at x={list(x)}, T={T}: after earlier calls {g.tolist()}, fresh object {ref.tolist()}',
-                            match=dict(model=model, via=via))
+            raise Violation('history-dependent', f'{model}{ids} via {via} at x={list(x)}, T={T}: after earlier calls/requests {g.tolist()}, fresh object {ref.tolist()}',
+                            match=dict(model=model, via=via, requested='reversed' if k >= 2 else 'base'))
         return (via, k, _sig(g))
 
     def nontrivial(self, st, a, obs):
